@@ -14,6 +14,7 @@ import plotly.figure_factory as ff
 import plotly.graph_objects as go
 
 from .base_facility import BaseFacilityState
+from .base_priority_rule import ResourcePriorityRuleMode, WorkplacePriorityRuleMode
 from .base_task import BaseTask, BaseTaskDependency, BaseTaskState
 from .base_worker import BaseWorkerState
 from .base_subproject_task import BaseSubProjectTask
@@ -115,9 +116,24 @@ class BaseWorkflow(object, metaclass=abc.ABCMeta):
         self.task_list = []
         j_list = json_data["task_list"]
         for j in j_list:
+            # priority rules of each task (not included in files of older versions)
+            rule_args = {}
+            if "workplace_priority_rule" in j:
+                rule_args["workplace_priority_rule"] = WorkplacePriorityRuleMode(
+                    j["workplace_priority_rule"]
+                )
+            if "worker_priority_rule" in j:
+                rule_args["worker_priority_rule"] = ResourcePriorityRuleMode(
+                    j["worker_priority_rule"]
+                )
+            if "facility_priority_rule" in j:
+                rule_args["facility_priority_rule"] = ResourcePriorityRuleMode(
+                    j["facility_priority_rule"]
+                )
             if j["type"] == "BaseTask":
                 self.task_list.append(
                     BaseTask(
+                        **rule_args,
                         name=j["name"],
                         ID=j["ID"],
                         default_work_amount=j["default_work_amount"],
@@ -161,6 +177,7 @@ class BaseWorkflow(object, metaclass=abc.ABCMeta):
             elif j["type"] == "BaseSubProjectTask":
                 self.task_list.append(
                     BaseSubProjectTask(
+                        **rule_args,
                         file_path=j["file_path"],
                         unit_timedelta=datetime.timedelta(
                             seconds=float(j["unit_timedelta"])
